@@ -1061,7 +1061,34 @@ mod store {
         let after = files(dir.path());
         if !bad.is_empty() { report("closed", "C17", hist, bad.join("; "), "Err(Closed) for every operation"); }
         if before != after { report("closed", "C17", hist, format!("the directory changed: {:?} -> {:?}", before, after), "no change on disk"); }
-        println!("{{\"found\": false, \"evaluations\": 10, \"searched\": \"10 operations (get / set / del of present, deleted, absent and empty keys, merge, through the handle and a clone) after the store object was dropped; directory listing compared\"}}");
+        // the drop lands while other threads keep the writer busy (merges in a loop, writers with sync=always): once the drop has
+        // returned -- operations in flight at that moment may still finish -- everything must be refused
+        for cycle in 0..6u32 {
+            let dir = tempfile::tempdir().unwrap();
+            let mut c = mk_conf(dir.path(), 256, "all");
+            c.sync(SyncStrategy::Always);
+            let kv = c.open().unwrap();
+            let h = kv.get_handle();
+            for i in 0..40 { h.set(b(&format!("k{}", i % 10)), b(&format!("v{}", i))).unwrap(); }
+            let stop = std::sync::Arc::new(std::sync::atomic::AtomicBool::new(false));
+            let mut ths = Vec::new();
+            for t in 0..4u32 {
+                let (h, stop) = (h.clone(), stop.clone());
+                ths.push(std::thread::spawn(move || { let mut i = 0u64; while !stop.load(std::sync::atomic::Ordering::SeqCst) { i += 1;
+                    if t == 0 { let _ = h.verif_merge(); } else { let _ = h.set(b(&format!("w{}-{}", t, i % 7)), b(&format!("{}", i))); } } }));
+            }
+            std::thread::sleep(std::time::Duration::from_millis(20 + 15 * cycle as u64));
+            drop(kv);
+            std::thread::sleep(std::time::Duration::from_millis(100));      // whatever was in flight at the drop has finished
+            let hist2 = format!("cycle {}: 40 sets; 1 thread merging in a loop and 3 threads writing with sync=always; [store object dropped while they run]; 100 ms later: operations through a handle", cycle);
+            let mut bad: Vec<String> = Vec::new();
+            for (name, r) in vec![("get k1 (present)", format!("{:?}", h.get(b("k1")))), ("set k1 x", format!("{:?}", h.set(b("k1"), b("x")))), ("del k2", format!("{:?}", h.del(b("k2")))), ("merge", format!("{:?}", h.verif_merge())), ("get zz (absent)", format!("{:?}", h.get(b("zz"))))] {
+                if !(r.starts_with("Err") && is_closed(&r)) { bad.push(format!("{} => {}", name, r)); } }
+            stop.store(true, std::sync::atomic::Ordering::SeqCst);
+            for t in ths { let _ = t.join(); }
+            if !bad.is_empty() { report("closed", "C17", &hist2, bad.join("; "), "Err(Closed) for every operation"); }
+        }
+        println!("{{\"found\": false, \"evaluations\": 40, \"searched\": \"6 drops of the store object while a merging thread and three sync=always writers keep the writer lock busy, 5 operations after each; 10 operations (get / set / del of present, deleted, absent and empty keys, merge, through the handle and a clone) after the store object was dropped; directory listing compared\"}}");
     }
 
     /// C04 (bounded, schedules chosen by the OS): writer threads, reader threads and a merging thread on one store with
